@@ -1403,6 +1403,12 @@ class Tensor:
                         f"`grad` must be broadcast-compatible with `tensor.shape={self.shape}`\n"
                         f"Got `grad.shape={_grad.shape}`"
                     )
+            if _grad.ndim > 1 and _grad.strides != self.data.strides:
+                # the stored gradient must have the memory layout of `self`
+                # so that every view of `self` is also a view of its gradient
+                tmp = np.empty_like(self.data)
+                tmp[...] = _grad
+                _grad = tmp
         else:
             _grad = np.full_like(self.data, fill_value=1.0)
 
